@@ -8,6 +8,8 @@ mod desc;
 mod psbt;
 mod tables;
 mod tap;
+mod validate;
+mod vgen;
 
 fn main() {
     // panics of the library are caught with catch_unwind and reported as observations
@@ -27,6 +29,7 @@ fn main() {
         "desc" => desc::run(&args[2..]),
         "psbt" => psbt::run(&args[2..]),
         "lift" => lift::run(&args[2..]),
+        "validate" => validate::run(&args[2..]),
         other => {
             eprintln!("unknown engine {}", other);
             std::process::exit(2);
